@@ -665,7 +665,9 @@ class BaseTable:
         ret = {col: getattr(self, col) for col in self.column_names}
         # Not all tables have metadata
         try:
-            ret["metadata_schema"] = repr(self.metadata_schema)
+            # The stored text, not repr() of the parsed schema: a copy, pickle or dict
+            # round trip must not re-canonicalise the bytes that equals() compares
+            ret["metadata_schema"] = self.ll_table.metadata_schema
         except AttributeError:
             pass
         return ret
@@ -2819,7 +2821,7 @@ class ReferenceSequence(metadata.MetadataProvider):
 
     def asdict(self) -> dict:
         return {
-            "metadata_schema": repr(self.metadata_schema),
+            "metadata_schema": self._ll_reference_sequence.metadata_schema,
             "metadata": self.metadata_bytes,
             "data": self.data,
             "url": self.url,
